@@ -113,6 +113,12 @@ Qed.
 Lemma map_point_inverse (s : aff) (p : pt) : adet s <> 0 -> map_point (ainverse s) (map_point s p) = p.
 Proof. intros H. rewrite <- map_point_matmul, ainverse_l, map_point_id; auto. Qed.
 
+Lemma fmul_nonzero (x y : F O) : x <> 0 -> y <> 0 -> x * y <> 0.
+Proof.
+  intros Hx Hy E. apply Hy. transitivity ((x * y) / x); [field; exact Hx|].
+  rewrite E. field. exact Hx.
+Qed.
+
 Lemma one_neq_zero : (1 : F O) <> 0.
 Proof. destruct Fth; auto. Qed.
 
